@@ -277,7 +277,9 @@ func c14Derive(v *c14Val, t string) []*c14Val {
 		a0, _ := c14Assoc(v, t, tv)
 		a1, _ := c14Assoc(v, "k", tv)
 		d, _ := c14Dissoc(v, "k")
-		return []*c14Val{a0, a1, d}
+		c4, _ := c14Assoc(v, c14Collide[3], tv)
+		c6, _ := c14Assoc(v, c14Collide[5], tv)
+		return []*c14Val{a0, a1, d, c4, c6}
 	}
 	return nil
 }
@@ -327,13 +329,19 @@ func c14DeriveCode(x string, v *c14Val, t string) string {
 		return "conj " + x + " " + t + "; assoc " + x + " 0 " + t + "; assoc " + x + " -1 " + t +
 			"; put " + x + "[1..] " + x + "[..-1]; conj " + x + "[..-1] " + t + "\n"
 	case 'm':
-		return "assoc " + x + " " + t + " " + t + "; assoc " + x + " k " + t + "; dissoc " + x + " k\n"
+		return "assoc " + x + " " + t + " " + t + "; assoc " + x + " k " + t + "; dissoc " + x + " k; assoc " + x + " " + c14Collide[3] + " " + t +
+			"; assoc " + x + " " + c14Collide[5] + " " + t + "\n"
 	}
 	return ""
 }
 
 // ---------------------------------------------------------------------------
 // Shapes and steps.
+
+// c14Collide are six barewords with the same vals.Hash (DJB: h*33+c); the test
+// asserts that they still collide. The start shapes hold the first 3 and the
+// first 5 of them; the 4th and the 6th are used as new keys.
+var c14Collide = []string{"bbbb", "cAbb", "bcAb", "bbcA", "cAcA", "cBAb"}
 
 func c14Shapes() []*c14Val {
 	long := []*c14Val{c14L(c14S("x"), c14S("y"))}
@@ -353,6 +361,10 @@ func c14Shapes() []*c14Val {
 		c14L(long...),
 		c14M(big...),
 		c14M(c14Nil, c14S("old"), "k", c14M(c14Nil, c14L(c14S("x"), c14S("y")), "m", c14S("z"))),
+		// maps whose keys have the same 32-bit hash (one collision node of the
+		// persistent hash map): 3 such keys at the top level, 5 one level down
+		c14M(c14Collide[0], c14S("c1"), c14Collide[1], c14S("c2"), c14Collide[2], c14S("c3"),
+			"k", c14M(c14Collide[0], c14S("c1"), c14Collide[1], c14S("c2"), c14Collide[2], c14S("c3"), c14Collide[3], c14S("c4"), c14Collide[4], c14S("c5"))),
 	}
 }
 
@@ -365,7 +377,8 @@ const c14Nil = "$nil"
 var c14Paths = [][]string{
 	{"0"}, {"1"}, {"-1"}, {"k"}, {"m"}, {c14Nil},
 	{"k", c14Nil}, {c14Nil, "0"},
-	{"0", "0"}, {"0", "1"}, {"0", "-1"}, {"1", "0"}, {"-1", "0"}, {"0", "k"}, {"k", "0"}, {"k", "k"}, {"k", "m"}, {"m", "k"},
+	{"bbcA"}, {"cBAb"}, {"k", "cBAb"},
+	{"0", "0"}, {"0", "1"}, {"-1", "0"}, {"0", "k"}, {"k", "0"}, {"k", "k"}, {"k", "m"}, {"m", "k"},
 	{"0", "0", "0"}, {"0", "k", "0"}, {"k", "k", "0"},
 }
 
@@ -411,6 +424,8 @@ func (s *c14Step) code(i int, st c14State) string {
 	switch s.kind {
 	case "set", "set-multi", "set-other":
 		return "set " + L + " = " + V
+	case "set-arg":
+		return "{|x| set " + c14LValue("x", s.paths[0]) + " = " + V + "; put $x } $a"
 	case "set-upvalue":
 		return "{ set " + L + " = " + V + " }"
 	case "del", "del-multi":
@@ -497,7 +512,7 @@ func c14Apply(s *c14Step, st c14State, i int) c14Outcome {
 	if failKind == c14NotJudged {
 		return o // nothing demanded of the assigned variable
 	}
-	temporary := strings.HasPrefix(s.kind, "tmp") || strings.HasPrefix(s.kind, "with")
+	temporary := strings.HasPrefix(s.kind, "tmp") || strings.HasPrefix(s.kind, "with") || s.kind == "set-arg"
 	bodyFails := strings.HasSuffix(s.kind, "-fail")
 	switch {
 	case failAt < 0 && !temporary:
@@ -529,8 +544,8 @@ func c14Alphabet() []*c14Step {
 		out = append(out, &c14Step{kind: kind, vr: vr, paths: paths, vals: vals, tier: tier})
 	}
 	str, list, mp, self := []string{"str"}, []string{"list"}, []string{"map"}, []string{"self"}
-	midP := map[string]bool{"0": true, "-1": true, "k": true, "0,0": true, "0,k": true, "k,0": true, "k,k": true, "-1,0": true, "$nil": true, "k,$nil": true}
-	core := map[string]bool{"set 0 list": true, "set $nil list": true, "set k,0 str": true, "set -1 self": true, "del k": true}
+	midP := map[string]bool{"0": true, "-1": true, "k": true, "0,0": true, "0,k": true, "k,0": true, "k,k": true, "-1,0": true, "$nil": true, "k,$nil": true, "bbcA": true, "k,cBAb": true}
+	core := map[string]bool{"set 0 list": true, "set $nil list": true, "set bbcA str": true, "del k": true}
 	for _, p := range c14Paths {
 		ps := strings.Join(p, ",")
 		tier := func(name string, mid bool) int {
@@ -542,19 +557,25 @@ func c14Alphabet() []*c14Step {
 			}
 			return 2
 		}
-		add(tier("set "+ps+" str", len(p) > 1), "set", "a", str, p)
+		add(tier("set "+ps+" str", len(p) > 1 || ps == "bbcA"), "set", "a", str, p)
 		add(tier("set "+ps+" list", true), "set", "a", list, p)
+		add(tier("del "+ps, true), "del", "a", nil, p)
+		add(tier("tmp "+ps+" list", true), "tmp", "a", list, p)
+		if last := p[len(p)-1]; last == c14Collide[3] || last == c14Collide[5] {
+			continue // new hash-colliding keys: set (string, list), del and tmp only
+		}
 		if len(p) == 1 {
 			add(tier("set "+ps+" map", false), "set", "a", mp, p)
 		}
-		add(tier("set "+ps+" self", true), "set", "a", self, p)
-		add(tier("del "+ps, true), "del", "a", nil, p)
-		add(tier("tmp "+ps+" list", true), "tmp", "a", list, p)
-		add(tier("with "+ps+" list", false), "with", "a", list, p)
+		if len(p) <= 2 {
+			add(tier("set "+ps+" self", len(p) == 1), "set", "a", self, p)
+		}
+		if midP[ps] {
+			add(tier("with "+ps+" list", false), "with", "a", list, p)
+		}
 	}
 	pairs := [][2][]string{
-		{{"0"}, {"1"}}, {{"k"}, {"m"}}, {{"0", "0"}, {"0", "1"}}, {{"0", "0"}, {"-1"}},
-		{{"k", "0"}, {"m", "k"}}, {{"k", "k"}, {"k", "m"}}, {{"0"}, {"0", "0"}}, {{c14Nil}, {"k"}},
+		{{"0"}, {"1"}}, {{"k"}, {"m"}}, {{"0", "0"}, {"0", "1"}}, {{"k", "0"}, {"m", "k"}}, {{c14Nil}, {"k"}},
 	}
 	for n, pr := range pairs {
 		t := 2
@@ -564,26 +585,28 @@ func c14Alphabet() []*c14Step {
 		vs := []string{"str", "list"}
 		add(t, "set-multi", "a", vs, pr[0], pr[1])
 		add(2, "tmp-multi", "a", vs, pr[0], pr[1])
-		add(t, "tmp-seq", "a", vs, pr[0], pr[1])
+		add(2, "tmp-seq", "a", vs, pr[0], pr[1])
 		add(2, "with-multi", "a", vs, pr[0], pr[1])
-		add(t, "with-seq", "a", vs, pr[0], pr[1])
-		add(t, "del-multi", "a", nil, pr[0], pr[1])
+		add(2, "with-seq", "a", vs, pr[0], pr[1])
+		add(2, "del-multi", "a", nil, pr[0], pr[1])
 	}
 	for _, p := range [][]string{{"0"}, {"k"}, {"0", "0"}, {"k", "k"}} {
 		add(2, "tmp-fail", "a", list, p)
 		add(2, "with-fail", "a", list, p)
 		add(2, "set-upvalue", "a", list, p)
-		add(2, "del-upvalue", "a", nil, p)
 	}
-	for _, p := range [][]string{{"0"}, {"-1"}, {"k"}, {c14Nil}, {"0", "0"}, {"k", "0"}, {"k", "k"}} {
+	for _, p := range [][]string{{"0"}, {"-1"}, {"k"}, {c14Nil}, {"bbcA"}, {"cBAb"}, {"0", "0"}, {"k", "0"}, {"k", "k"}, {"k", "cBAb"}} {
 		t := 2
-		if len(p) == 1 {
+		if len(p) == 1 && (p[0] == "0" || p[0] == "k" || p[0] == "bbcA") {
 			t = 1
 		}
 		add(t, "set-other", "b", str, p)
 	}
+	// the value passed as a closure argument is element-assigned there and output
+	for _, p := range [][]string{{"0"}, {"k"}, {"bbcA"}, {"k", "cBAb"}} {
+		add(2, "set-arg", "a", str, p)
+	}
 	add(1, "rebind-b", "b", nil)
-	add(2, "rebind-a", "a", nil)
 	return out
 }
 
@@ -922,6 +945,14 @@ func TestVerifC14(t *testing.T) {
 		const depth = 3
 		lastTier := vk.Pick(c, 0, 1)
 		maxLevel := depth
+		for _, k := range c14Collide[1:] {
+			if vals.Hash(k) != vals.Hash(c14Collide[0]) {
+				// the hash function changed: the collision-node coverage would be lost silently
+				fmt.Printf("HARNESS-ERROR property=C14 the keys %q no longer have the same vals.Hash (%q: %d, %q: %d); choose new colliding keys\n",
+					c14Collide, c14Collide[0], vals.Hash(c14Collide[0]), k, vals.Hash(k))
+				c.T.Fatalf("colliding keys do not collide")
+			}
+		}
 		shapes := c14Shapes()
 		alpha := c14Alphabet()
 		var lastIdx, allIdx []int
